@@ -1,5 +1,6 @@
 -- GENERATED: axiom audit for Props/C08*.lean
 import Props.C08
+import Props.C08_more
 #print axioms SpyneModel.Props.C08.int_roundtrip_unbounded
 #print axioms SpyneModel.Props.C08.int_roundtrip_bounded
 #print axioms SpyneModel.Props.C08.bool_roundtrip
@@ -16,3 +17,18 @@ import Props.C08
 #print axioms SpyneModel.Props.C08.urlsafe_base64_roundtrip
 #print axioms SpyneModel.Props.C08.hex_in_lexical_space
 #print axioms SpyneModel.Props.C08.base64_in_lexical_space
+#print axioms SpyneModel.Props.C08more.dec_roundtrip
+#print axioms SpyneModel.Props.C08more.dec_plain_in_lexical_space
+#print axioms SpyneModel.Props.C08more.dec_scientific_not_lexical
+#print axioms SpyneModel.Props.C08more.dec_literal_read
+#print axioms SpyneModel.Props.C08more.int_in_lexical_space
+#print axioms SpyneModel.Props.C08more.int_literal_read
+#print axioms SpyneModel.Props.C08more.bool_in_lexical_space
+#print axioms SpyneModel.Props.C08more.bool_literal_read
+#print axioms SpyneModel.Props.C08more.date_in_lexical_space
+#print axioms SpyneModel.Props.C08more.time_in_lexical_space
+#print axioms SpyneModel.Props.C08more.datetime_in_lexical_space
+#print axioms SpyneModel.Props.C08more.datetime_literal_read
+#print axioms SpyneModel.Props.C08more.datetime_literal_read_rounded
+#print axioms SpyneModel.Props.C08more.duration_in_lexical_space
+#print axioms SpyneModel.Props.C08more.duration_literal_read
